@@ -45,6 +45,31 @@ def alloc_func(ctx):
             tops.append(g)
     if not tops:
         tops = holders
+    # a wrapper around the phase (e.g. "refresh resources, then allocate") is not the phase: descend to the function that holds the
+    # per-task loop -- as long as exactly one private callee still reaches every holder
+    def has_task_loop(g):
+        ft = ctx.types.ftypes(g)
+        for n in ast.walk(g.node):
+            if isinstance(n, ast.For):
+                t = ft.type_of(n.iter)
+                if t and t[0] in ("list", "set") and t[1] == ("obj", TASK):
+                    return True
+        return False
+    if len(tops) == 1:
+        cur, hops = tops[0], 0
+        while not has_task_loop(cur) and hops < 4:
+            hops += 1
+            nxt = []
+            for cs in ctx.eff.calls_of(cur):
+                for c in cs.callees:
+                    if cs.resolved and c.cls == cur.cls and c.name.startswith("_") and not c.name.endswith("__") and c.node is not cur.node \
+                            and all(any(h.node is x.node for x in closure(c)) for h in holders) and not any(c.node is x.node for x in nxt):
+                        nxt.append(c)
+            if len(nxt) != 1:
+                break
+            cur = nxt[0]
+        if has_task_loop(cur):
+            tops = [cur]
     if len(tops) != 1:
         raise AnalysisError(f"anchor: expected exactly one allocation phase (function appending to allocated_worker_list), found {[g.qualname for g in tops]}")
     _CACHE[key] = tops[0]
@@ -117,7 +142,8 @@ def alloc_trace(ctx):
     if not normal:
         raise AnalysisError("allocation function has no normal path")
     I.all_traces = [(st.trace, ex) for st, ex in outs]
-    res = (f, normal[0].trace, I)
+    allocating = [st for st in normal if any(isinstance(e, Mut) and e.attr == "allocated_worker_list" and e.op == "append" for e in flatten(st.trace))]
+    res = (f, (allocating or normal)[0].trace, I)
     _CACHE[key] = res
     return res
 
